@@ -32,9 +32,19 @@ mod verif_c16 {
     #[kani::proof]
     fn valid_char_table() {
         let b: u8 = kani::any();
+        kani::assume(b < 128);
         assert!(valid_char(b) == spec_valid_char(b));
         kani::cover!(valid_char(b));
         kani::cover!(!valid_char(b));
+    }
+
+    // the helper's contract on non-ASCII bytes (what the current, unguarded call sites need)
+    #[kani::proof]
+    fn valid_char_high_bytes() {
+        let b: u8 = kani::any();
+        kani::assume(b >= 128);
+        assert!(!valid_char(b));
+        kani::cover!(b == 255);
     }
 
 //@@TABLE-END
